@@ -2,13 +2,13 @@
 from sim import ref
 from sim.chart import Cfg, swarm, gen_spec
 from sim.engine import Result, Abandon, fp
-from sim.semrun import Sim, standard_ops, legal_or_abandon
+from sim.semrun import Sim, standard_ops, legal_or_abandon, materialise
 from sim.checks import common
 
 ID = 'C04'
 LEVEL = 'exploration'
 BUDGET = {'quick': 20, 'thorough': 240}
-STREAM_ORDER = ['ops', 'guards', 'chart', 'cfg']
+STREAM_ORDER = ['ops', 'guards', 'mat', 'chart', 'cfg']
 RULE = (common.GEN + 'guard outcomes and chart shapes are biased towards >= 2 transitions firing at once (same source under compound / '
         'orthogonal parents and on the root, sibling regions with targets inside / outside the region); the exception class of every '
         'step is compared with reference step 6, and after an error nothing may have changed; non-trivial = a step in which the '
@@ -25,7 +25,7 @@ def run(ch, tier):
     res = Result()
     cfg = swarm(ch.s('cfg'), Cfg(pair_bias=5, bump=True), tier)
     sp = gen_spec(ch.s('chart'), cfg)
-    sim = Sim(sp)
+    sim = Sim(sp, statechart=materialise(sp, ch, res))
     cfp = fp(sp.fingerprint())
     for r in standard_ops(sim, ch, tier, single_pending=True, advance=False, p_true=(6, 8)):
         res.stats['steps'] += 1
